@@ -519,9 +519,30 @@ fn gen_bridge(mut input: ItemMod) -> ItemMod {
             // Normal opaque types don't need repr(transparent) because the inner type is
             // never referenced.
             if !info.opaque {
+                // Enums cross the boundary by value, so they are always Clone + Copy. Only derive
+                // what the user has not already derived themselves (a second derive of the same
+                // trait is a conflicting impl).
+                let mut has_clone = false;
+                let mut has_copy = false;
+                for attr in e.attrs.iter().filter(|a| a.path().is_ident("derive")) {
+                    let _ = attr.parse_nested_meta(|meta| {
+                        match meta.path.segments.last() {
+                            Some(seg) if seg.ident == "Clone" => has_clone = true,
+                            Some(seg) if seg.ident == "Copy" => has_copy = true,
+                            _ => (),
+                        }
+                        Ok(())
+                    });
+                }
+                let derive = match (has_clone, has_copy) {
+                    (false, false) => quote!(#[derive(Clone, Copy)]),
+                    (true, false) => quote!(#[derive(Copy)]),
+                    (false, true) => quote!(#[derive(Clone)]),
+                    (true, true) => quote!(),
+                };
                 *e = syn::parse_quote! {
                     #[repr(C)]
-                    #[derive(Clone, Copy)]
+                    #derive
                     #e
                 };
             }
